@@ -46,3 +46,7 @@ Definition trav_corr (c : trav_case) : bool := match trav_diff c with None => tr
 (* the model's events of one section, for replay files *)
 Definition trav_section (c : trav_case) (k : nat) : list event :=
   let '(g, p, sched, impl) := c in nth k (snd (run_schedule g (init_state g p) sched)) [].
+
+(* the hypotheses of C04_mutual_exclusion hold of the exported graph *)
+Definition trav_gwf (c : trav_case) : bool := let '(g, _, _, _) := c in gwf_b g.
+Definition trav_gwf_core (c : trav_case) : bool := let '(g, _, _, _) := c in gwf_core_b g.
